@@ -361,3 +361,145 @@ def history_stream(H, rep, drv, rng, docs, n, stats, d: Path):
             elif res[0] != "ok":
                 rep.failing_input(dict(case, oracle="loading a valid description does not end the run", why=res[1]), None)
     return ev, bad
+
+
+# --------------------------------------------------------------------------- the href of a textual reference
+
+class _Ctx:
+    """the entity whose documentation is being converted, as far as `convert` / `convert_link` look at it"""
+    parent = None
+    name = "ctx"
+    filename = "ctx.f90"
+
+    def __init__(self, url):
+        self._url = url
+
+    def get_url(self):
+        return self._url
+
+    def find_child(self, *a, **k):
+        return None
+
+
+class _Proj:
+    def __init__(self):
+        self.item = None
+
+    def find(self, *a, **k):
+        return self.item
+
+
+def href_stream(H, rep, drv, rng, n, stats, d: Path):
+    """the real `MetaMarkdown.convert` on `[[thing]]` (with the real FordLinkProcessor and RelativeLinksTreeProcessor)
+    where the project resolves `thing` to an imported entity, vs the model's `hrefOf`; oracle (statement): followed
+    from the entity's page directory and from a list page directory, the reference arrives at the imported URL."""
+    import html
+    import os
+    import os.path
+    import pathlib
+    H.ford_mod()
+    from ford._markdown import MetaMarkdown
+    import ford.external_project as xp
+    root = (d / "HW").resolve()
+    cwds = [root / "w" / "B", root / "w" / "w", root / "q"]
+    for c in cwds:
+        c.mkdir(parents=True, exist_ok=True)
+    classes = list(xp.ENTITIES.values())
+    ctx_urls = ["module/bmod.html", "proc/bsub.html", "type/t.html#boundprocedure-x", "module/bmod.html#variable-v",
+                "index.html", "sub/dir/deep/page.html", "lists/modules.html", "program/main.html"]
+    names = ["A", "doc", "module", "geom.html", "type", "shape_t.html#variable-size", "w", "B", "q", "HW", "ext",
+             "non-existent dir", "proc", "setup~2.html", "x y", "m.html"]
+    old_cwd = os.getcwd()
+    mds = {}
+    cases, reqs = [], []
+    try:
+        for k in range(n):
+            cwd = rng.choice(cwds)
+            base = rng.choice([cwd / "doc", cwd / "out" / "html", cwd.parent / "site", root / "w" / "doc", cwd])
+            r = rng.random()
+            if r < 0.7:
+                mode, ctx_url, path = "U", rng.choice(ctx_urls), None
+                cur = base / Path(ctx_url).parent.parent / "non-existent dir"
+            elif r < 0.9:
+                path = rng.choice([base, base / "page", base / "page" / "sub", cwd])
+                mode, ctx_url, cur = "P", None, path
+            else:
+                mode, ctx_url, path, cur = "N", None, None, None
+            r = rng.random()
+            if r < 0.55:      # an entity imported from a local path: a pathlib path below A's resolved location
+                start = rng.choice([root / "w" / "A" / "doc", cwd.parent / "A" / "doc", base / "ext" / "A", root.parent / "elsewhere" / "A",
+                                    base / "non-existent dir" / "A", Path("/"), root / "w" / "w" / "doc" / "A", cwd / "doc" / "A"])
+                url = start / rng.choice(["module/geom.html", "type/shape_t.html#variable-size", "proc/setup~2.html",
+                                          "interface/gen.html", "module/geom.html#variable-origin"])
+                kind = "local"
+            elif r < 0.7:     # paths made of the very segments of the working / output directory: coincidences
+                parts = list((cur or cwd).parts[1:])
+                keep = rng.randint(0, len(parts))
+                url = Path("/", *parts[:keep], *[rng.choice(names + list(cwd.parts[1:])) for _ in range(rng.randint(1, 4))])
+                kind = "local-mixed"
+            elif r < 0.9:
+                url = rng.choice(["http://ex.invalid/a/", "https://ex.invalid/docs/v1/proja/", "http://ex.invalid:8080/pa/"]) + rng.choice(
+                    ["module/geom.html", "type/shape_t.html#variable-size"])
+                kind = "remote"
+            else:
+                url = rng.choice(["", "rel/x.html", "httpdocs/x.html", pathlib.PurePosixPath("/a/../b/x.html"), "/abs/str.html"])
+                kind = "odd"
+            cases.append((cwd, base, mode, ctx_url, path, url, kind, rng.choice(classes)))
+            reqs.append(["c16.href", str(base), str(cwd), mode + (ctx_url or (str(path) if path else "")), "=" + str(url)])
+        got = drv.batch(reqs)
+        bad = 0
+        for (cwd, base, mode, ctx_url, path, url, kind, cls), g in zip(cases, got):
+            os.chdir(cwd)
+            key = (str(base), str(cwd))
+            if key not in mds:
+                proj = _Proj()
+                mds[key] = (MetaMarkdown(".", base_url=str(base), project=proj), proj)
+            md, proj = mds[key]
+            proj.item = cls("thing", url)
+            case = {"stream": "href", "working_directory": str(cwd), "output_directory": str(base),
+                    "converted": "documentation of the entity at " + ctx_url if mode == "U" else
+                    ("text of the page directory " + str(path)) if mode == "P" else "text without a page",
+                    "imported_url": str(url), "imported_url_is_a_path": not isinstance(url, str), "class": cls.__name__}
+            try:
+                with common.quiet():
+                    out = md.reset().convert("[[thing]]", context=_Ctx(ctx_url) if mode == "U" else None, path=path)
+                m = re.search(r'<a href="([^"]*)"', out)
+                im = ["ok", html.unescape(m.group(1))] if m else ["nolink", out[:80]]
+            except Exception as e:
+                im = ["err", type(e).__name__]
+            k2 = f"href:{kind}:{mode}:{im[0]}"
+            stats[k2] = stats.get(k2, 0) + 1
+            if list(g) != im:
+                bad += 1
+                rep.tie_broken(f"correspondence href: model {H.short(list(g))} vs MetaMarkdown.convert {H.short(im)}",
+                               dict(case, impl=im, model=list(g)))
+            # oracle: from the entity's page directory and from a list page directory the reference leads to the imported
+            # URL (the statement's "linked to a URL that exists in A's generated documentation"): text of an entity, A not
+            # inside B's `non-existent dir`; FORD not started at or below its own output directory (such a run does not
+            # complete: the output directory is removed and re-made, the working directory is gone)
+            if (mode == "U" and len(Path(ctx_url).parts) >= 2 and kind in ("local", "remote") and im[0] == "ok"
+                    and "non-existent dir" not in str(url) and base != cwd and base not in cwd.parents):
+                href = im[1]
+                if kind == "remote":
+                    ok = href == url
+                    arrived = href
+                else:
+                    arrived = None
+                    ok = True
+                    for pagedir in (base / Path(ctx_url).parent, base / Path(ctx_url).parent.parent / "lists"):
+                        arrived = os.path.normpath(os.path.join(str(pagedir), href))
+                        ok = ok and arrived == os.path.normpath(str(url))
+                stats["href:oracle"] = stats.get("href:oracle", 0) + 1
+                if not ok:
+                    # known class (decidable from the inputs alone): the reference as `convert_link` makes it - the URL itself,
+                    # or the path relative to <output dir>/<..>/non-existent dir -, read as a path from the working directory,
+                    # lies below the output directory
+                    first = url if kind == "remote" else os.path.relpath(str(url), str(cur))
+                    tag = os.path.normpath(os.path.join(str(cwd), first))
+                    fid = "C16-relative-reference-reread-from-working-directory" if tag.startswith(str(base) + "/") else None
+                    rep.failing_input(dict(case, href=href, oracle="a [[...]] reference to an imported entity, followed from the page "
+                                                                   "it is shown on, arrives at the imported URL",
+                                           why=f"arrives at {arrived}"), fid)
+    finally:
+        os.chdir(old_cwd)
+    return len(cases), bad
